@@ -231,10 +231,35 @@ func rigLastResult(path string) (last *rigResult) {
 	return nil
 }
 
+// rigTail returns the interesting part of a child's log: from the first
+// panic / fatal error / RIG-FAIL line if there is one, else the end.
 func rigTail(path string, n int) string {
 	b, err := ioutil.ReadFile(path)
 	if err != nil {
 		return ""
+	}
+	// glog writes fatal/error records to files in the raft directory
+	if dir := filepath.Join(filepath.Dir(path), "raft"); true {
+		for _, pat := range []string{"*.FATAL.*", "*.ERROR.*"} {
+			if ms, _ := filepath.Glob(filepath.Join(dir, pat)); len(ms) > 0 {
+				if gb, err := ioutil.ReadFile(ms[len(ms)-1]); err == nil {
+					if len(gb) > 2*n {
+						gb = gb[:2*n]
+					}
+					b = append(append([]byte("glog "+filepath.Base(ms[len(ms)-1])+": "), gb...), b...)
+					break
+				}
+			}
+		}
+	}
+	for _, marker := range []string{"RIG-FAIL", "glog ", "panic:", "fatal error:", "--- FAIL"} {
+		if i := bytes.Index(b, []byte(marker)); i >= 0 {
+			e := i + 3*n
+			if e > len(b) {
+				e = len(b)
+			}
+			return string(b[i:e])
+		}
 	}
 	if len(b) > n {
 		b = b[len(b)-n:]
